@@ -1,21 +1,150 @@
 import CfrVerif.Model.Worklist
 import CfrVerif.Proofs.CompileWF
 import CfrVerif.Proofs.ViewBridge
+import CfrVerif.Proofs.WorklistLemmas
 /-!
 # The crate's work-list computes the same best-response value as resolving in decreasing order
+
+`optimalDeviationsWL` (`Model/Worklist.lean`) is `optimal_deviations` with its `future_nodes`
+counters and LIFO queue; `optimalDeviations` (`Model/Eval.lean`) resolves the infosets in decreasing
+index order.  On a well-formed game whose `prev` pointers are consistent with the tree (`PrevWF`,
+guaranteed by `from_root`: `compile_ok_prevwf`) the two compute the same value — in fact the same
+table of `max_utility` values (`wl_table_eq` in `Proofs/WorklistLemmas.lean`): every reached
+infoset is resolved exactly once, after all reached infosets below it.
 -/
 set_option linter.unusedSectionVars false
 namespace Cfr
 variable {α : Type} [Field α] [LinearOrder α] [IsStrictOrderedRing α]
 
 /-- the `prev` pointers stored in the infoset tables describe the own histories of the tree:
-perfect recall holds for the history function read off the tables -/
-def PrevWF (g : Game α) : Prop := ∀ me : Bool, PR me (histOf (g.infos me)) [] g.root
+perfect recall holds for the history function read off the tables, **and the pointers point
+backwards** (to smaller indices).
+
+The second clause is needed: `histOf` stops at a pointer that does not point backwards, so the
+first clause alone accepts tables with a `prev` cycle, on which the work-list never resolves the
+infosets of the cycle (see the example below). -/
+def PrevWF (g : Game α) : Prop :=
+  (∀ me : Bool, PR me (histOf (g.infos me)) [] g.root) ∧
+  (∀ (me : Bool) (i : Nat) (e : PInfo), (g.infos me)[i]? = some e →
+    ∀ j a, e.prev = some (j, a) → j < i)
+
+/-- a table with a `prev` pointer to itself (never produced by `from_root`): one infoset of player
+one at the root, payoffs `1` and `2` -/
+def cexPrevGame : Game ℚ where
+  chance := []
+  p1 := [⟨0, [0, 1], some (0, 0)⟩]
+  p2 := []
+  s1 := []
+  s2 := []
+  root := .player true 0 [.term 1, .term 2]
+
+/-- **why `PrevWF` needs its second clause.**  `cexPrevGame` is well formed (`GameWF`) and satisfies
+the first clause of `PrevWF` (`histOf` ignores the pointer `0 ↦ 0`), but the work-list counts the
+root as a future node of its own infoset, never resolves it and returns `0`, whereas the
+decreasing-order resolution returns the best response value `2`. -/
+example : GameWF cexPrevGame ∧
+    (∀ me : Bool, PR me (histOf (cexPrevGame.infos me)) [] cexPrevGame.root) ∧
+    IsStrat ([] : Strat ℚ) ∧ FitsGame cexPrevGame (!true) [] ∧
+    optimalDeviationsWL cexPrevGame true [] = 0 ∧ optimalDeviations cexPrevGame true [] = 2 := by
+  refine ⟨⟨by decide +kernel, by simp [NodeOK, NodeOKL, cexPrevGame, Game.infos],
+    fun me => ⟨fun _ => [], by cases me <;> simp [PR, PRL, PRD, cexPrevGame], by simp⟩,
+    ⟨by decide, by decide, by decide, by decide⟩, ⟨by decide, by decide, by decide, by decide⟩,
+    by intro me; cases me <;> decide⟩, ?_, by simp [IsStrat], by simp [FitsGame, cexPrevGame, Game.infos],
+    by decide +kernel, by decide +kernel⟩
+  intro me
+  cases me
+  · simp [PR, PRL, cexPrevGame]
+  · have : histOf (cexPrevGame.infos true) 0 = [] := by
+      rw [histOf]; simp [cexPrevGame, Game.infos]
+    simp [PR, PRD, cexPrevGame]
+    simpa [cexPrevGame] using this
 
 /-- whatever `from_root` accepts has consistent `prev` pointers -/
 theorem compile_ok_prevwf (r : Raw α) (hs : Raw.Shape r) (g : Game α) (h : fromRoot r = .ok g) :
     PrevWF g := by
-  sorry
+  unfold fromRoot at h
+  split at h
+  · cases h
+  · rename_i root s hc
+    simp only [Except.ok.injEq] at h
+    subst h
+    have hi0 : ∀ one, ({} : BState α).infos one = [] := fun one => by cases one <;> rfl
+    have hs0 : ∀ one, ({} : BState α).singles one = [] := fun one => by cases one <;> rfl
+    have hp0 : ∀ one, ({} : Prev).get one = none := fun one => by cases one <;> rfl
+    have hb0 : BInv ({} : BState α) := by
+      refine ⟨?_, ?_, ?_, ?_⟩
+      · intro one; rw [hi0, hs0]; exact ⟨by simp, by simp, by simp, by simp⟩
+      · intro one e he; rw [hi0] at he; simp at he
+      · intro one i e he; rw [hi0] at he; simp at he
+      · intro e he; exact absurd he (by simp)
+    have hpo : PrevOK ({} : Prev) ({} : BState α) := by
+      intro one j a hj; rw [hp0] at hj; cases hj
+    obtain ⟨hb, _, _, hpr⟩ := compile_inv r {} {} s root hs hb0 hpo hc
+    refine ⟨fun me => ?_, fun me i e he => ?_⟩
+    · have := hpr me
+      rw [hp0] at this
+      exact this
+    · exact hb.prevLt me i e (by cases me <;> exact he)
+
+/-! ## the compiled tables give a work-list context -/
+
+theorem prev_getD_some {infos : List PInfo} {i j : Nat}
+    (h : ((infos.getD i default).prev).map (·.1) = some j) :
+    ∃ e a, infos[i]? = some e ∧ e.prev = some (j, a) := by
+  rw [List.getD_eq_getElem?_getD] at h
+  by_cases hi : i < infos.length
+  · rw [List.getElem?_eq_getElem hi] at h
+    simp only [Option.getD_some, Option.map_eq_some_iff] at h
+    obtain ⟨⟨j', a⟩, h1, h2⟩ := h
+    simp only at h2
+    subst h2
+    exact ⟨infos[i], a, List.getElem?_eq_getElem hi, h1⟩
+  · rw [List.getElem?_eq_none (by omega)] at h
+    have hd : (default : PInfo).prev = none := rfl
+    simp [hd] at h
+
+theorem prev_getD_none {infos : List PInfo} {i : Nat}
+    (h : ((infos.getD i default).prev).map (·.1) = none) :
+    ∀ e, infos[i]? = some e → e.prev = none := by
+  intro e he
+  rw [List.getD_eq_getElem?_getD, he] at h
+  simpa using h
+
+/-- the setting of `Proofs/WorklistLemmas.lean` for player `me` of a well-formed game -/
+theorem wlctx_of_game (g : Game α) (hg : GameWF g) (hp : PrevWF g) (me : Bool)
+    (σo : Strat α) (hσ : IsStrat σo) (hfit : FitsGame g (!me) σo) :
+    WLCtx (g.infos me).length (nActsOf g me) (histOf (g.infos me))
+      (fun i => (((g.infos me).getD i default).prev).map (·.1))
+      (collect (view g.chance σo me g.root) 1) := by
+  obtain ⟨hpr, hlt⟩ := hp
+  have hch : ∀ ps ∈ g.chance, ∀ p ∈ ps, 0 ≤ p :=
+    fun ps hps p hp => le_of_lt ((hg.chancePos ps hps).1 p hp)
+  have hok := view_VOK g hch me σo hσ hfit g.root hg.nodes
+  have hprv := view_PRV g.chance σo me (histOf (g.infos me)) g.root [] (hpr me)
+  have hlink : ∀ i j, (((g.infos me).getD i default).prev).map (·.1) = some j →
+      j < i ∧ ∃ a, histOf (g.infos me) i = histOf (g.infos me) j ++ [(j, a)] := by
+    intro i j h
+    obtain ⟨e, a, he, hea⟩ := prev_getD_some h
+    have hji := hlt me i e he j a hea
+    refine ⟨hji, a, ?_⟩
+    rw [histOf, he]
+    simp only [hea, hji, dite_true]
+  refine ⟨histOf_lt _, ?_, collect_ok _ _ _ _ [] 1 one_pos hok hprv, fun i j h => (hlink i j h).1,
+    fun i j h => (hlink i j h).2, ?_, ?_⟩
+  · intro i hi
+    have := hg.actsTwo me _ (List.getElem_mem hi)
+    simp only [nActsOf, List.getD_eq_getElem?_getD, List.getElem?_eq_getElem hi, Option.getD_some]
+    omega
+  · intro i h
+    rw [histOf]
+    cases he : (g.infos me)[i]? with
+    | none => rfl
+    | some e => simp only [prev_getD_none h e he]
+  · intro h hh j hj
+    obtain ⟨a, ha⟩ := (hlink _ _ hj).2
+    rcases collect_anc (histOf (g.infos me)) _ [] 1 hprv h hh (j, a) (by rw [ha]; simp) with h1 | h1
+    · simp at h1
+    · exact h1
 
 /-- **the work-list is a correct schedule**: on a well-formed game with consistent `prev` pointers
 the crate's work-list (future-node counters, LIFO queue) yields exactly the value of the
@@ -23,12 +152,101 @@ decreasing-index-order resolution, for every valid opponent strategy -/
 theorem optimalDeviationsWL_eq (g : Game α) (hg : GameWF g) (hp : PrevWF g) (me : Bool)
     (σo : Strat α) (hσ : IsStrat σo) (hfit : FitsGame g (!me) σo) :
     optimalDeviationsWL g me σo = optimalDeviations g me σo := by
-  sorry
+  have ctx := wlctx_of_game g hg hp me σo hσ hfit
+  exact congrArg (fun mu => search mu (view g.chance σo me g.root)) (wl_table_eq ctx)
+
+/-- in particular for every game `from_root` accepts -/
+theorem optimalDeviationsWL_eq_compiled (r : Raw α) (hs : Raw.Shape r) (g : Game α)
+    (h : fromRoot r = .ok g) (me : Bool) (σo : Strat α) (hσ : IsStrat σo)
+    (hfit : FitsGame g (!me) σo) :
+    optimalDeviationsWL g me σo = optimalDeviations g me σo :=
+  optimalDeviationsWL_eq g (compile_ok_wf r hs g h) (compile_ok_prevwf r hs g h) me σo hσ hfit
 
 theorem getInfoWL_eq (g : Game α) (hg : GameWF g) (hp : PrevWF g) (σ : Bool → Strat α)
     (hσ : ∀ me : Bool, IsStrat (σ me) ∧ FitsGame g me (σ me)) :
     (getInfoWL g σ).util = (getInfo g σ).util ∧ (getInfoWL g σ).regretOne = (getInfo g σ).regretOne ∧
     (getInfoWL g σ).regretTwo = (getInfo g σ).regretTwo := by
-  sorry
+  have h1 := optimalDeviationsWL_eq g hg hp true (σ false) (hσ false).1 (hσ false).2
+  have h2 := optimalDeviationsWL_eq g hg hp false (σ true) (hσ true).1 (hσ true).2
+  simp only [getInfoWL, getInfo, h1, h2, and_self]
+
+/-! ## non-vacuity: a game with `prev` pointers, two nodes in one infoset, non-trivial counters -/
+
+/-- player one moves at the root (infoset `0`); after action `0` a coin leads to infoset `1` or,
+through player two, to infoset `2`; after action `1` player two moves unobserved and player one
+moves again at infoset `3` (two nodes).  `future_nodes[0] = 4` after the first loop. -/
+def wlGame : Game ℚ where
+  chance := [[1/2, 1/2]]
+  p1 := [⟨0, [0, 1], none⟩, ⟨1, [0, 1], some (0, 0)⟩, ⟨2, [0, 1], some (0, 0)⟩,
+    ⟨3, [0, 1], some (0, 1)⟩]
+  p2 := [⟨0, [0, 1], none⟩, ⟨1, [0, 1], none⟩]
+  s1 := []
+  s2 := []
+  root := .player true 0
+    [.chance 0
+       [.player true 1 [.term 3, .term 1],
+        .player false 0 [.player true 2 [.term 0, .term 5], .term 2]],
+     .player false 1
+       [.player true 3 [.term 1, .term 4],
+        .player true 3 [.term 6, .term 0]]]
+
+def wlProfile : Bool → Strat ℚ :=
+  fun p => if p then [[1/2, 1/2], [1, 0], [0, 1], [1/2, 1/2]] else [[1/2, 1/2], [1/3, 2/3]]
+
+theorem wlGame_hist : histOf wlGame.p1 0 = [] ∧ histOf wlGame.p1 1 = [(0, 0)] ∧
+    histOf wlGame.p1 2 = [(0, 0)] ∧ histOf wlGame.p1 3 = [(0, 1)] := by
+  refine ⟨?_, ?_, ?_, ?_⟩
+  · rw [histOf]; simp [wlGame]
+  all_goals (rw [histOf]; simp [wlGame]; rw [histOf]; simp)
+
+theorem wlGame_wf : GameWF wlGame where
+  chancePos := by decide +kernel
+  nodes := by simp [NodeOK, NodeOKL, wlGame, Game.infos]
+  recall := fun me => by
+    cases me
+    · exact ⟨fun _ => [], by simp [PR, PRL, PRD, wlGame], by simp⟩
+    · refine ⟨fun i => if i = 0 then [] else if i = 3 then [(0, 1)] else [(0, 0)],
+        by simp [PR, PRL, PRD, wlGame], ?_⟩
+      intro i e he
+      simp only at he
+      split_ifs at he with h1 h2
+      · simp at he
+      · simp only [List.mem_singleton] at he; subst he; omega
+      · simp only [List.mem_singleton] at he; subst he; omega
+  tables1 := ⟨by decide, by decide, by decide, by decide⟩
+  tables2 := ⟨by decide, by decide, by decide, by decide⟩
+  actsTwo := by intro me; cases me <;> decide
+
+theorem wlGame_prevwf : PrevWF wlGame := by
+  refine ⟨fun me => ?_, ?_⟩
+  · cases me
+    · simp only [PR, PRL, PRD, wlGame, Game.infos]
+      simp only [Bool.true_eq_false, Bool.false_eq_true, if_false, if_true, and_true, true_and]
+      constructor <;> (rw [histOf]; simp)
+    · obtain ⟨h0, h1, h2, h3⟩ := wlGame_hist
+      have e : wlGame.infos true = wlGame.p1 := rfl
+      rw [e]
+      simp only [PR, PRL, PRD, wlGame, if_true, h0, h1, h2, h3] at h0 h1 h2 h3 ⊢
+      simp
+  · intro me i e he j a hp
+    cases me
+    · rcases i with _ | _ | i <;> simp [wlGame, Game.infos] at he <;> subst he <;> simp at hp
+    · rcases i with _ | _ | _ | _ | i <;> simp [wlGame, Game.infos] at he <;> subst he <;>
+        simp at hp <;> omega
+
+theorem wlProfile_ok : ∀ me : Bool, IsStrat (wlProfile me) ∧ FitsGame wlGame me (wlProfile me) := by
+  intro me
+  cases me <;> simp only [IsStrat, IsDist, FitsGame] <;> decide +kernel
+
+/-- the work-list and the decreasing-order resolution on `wlGame`: the values (player one's best
+response takes action `1` at the root and then action `0`: `1/3 · 1 + 2/3 · 6`) -/
+example : optimalDeviationsWL wlGame true (wlProfile false) = 13/3 ∧
+    optimalDeviations wlGame true (wlProfile false) = 13/3 ∧
+    optimalDeviationsWL wlGame false (wlProfile true) = optimalDeviations wlGame false (wlProfile true) ∧
+    (getInfoWL wlGame wlProfile).regretOne = (getInfo wlGame wlProfile).regretOne := by
+  decide +kernel
+
+/-- the hypotheses of `getInfoWL_eq` hold on `wlGame` -/
+example := getInfoWL_eq wlGame wlGame_wf wlGame_prevwf wlProfile wlProfile_ok
 
 end Cfr
